@@ -79,11 +79,13 @@ claim("C14", "E5",
 
 claim("C20", "E5",
       "static analysis: call-graph dominator (single pipeline) over the resolved whole-program call graph; constant-key data-flow rules over MIR for the source loaders (which lib keys are looked up on which dictionary)",
-      "Static decision of three structural clauses of C20: (Q1) the CLI entry point and the library entry point reach scheduler and context construction through one common "
+      "Static decision of five structural clauses of C20: (Q1) the CLI entry point and the library entry point reach scheduler and context construction through one common "
       "function (a call-graph dominator of Workload::new, Workload::exec and both Context::new_root), and nothing else constructs them; (L2) the .glyphspackage "
       "loader does not consult custom parameters the single-file loader does not; (L4) `public.*` UFO lib keys are looked up on the designspace lib only for the "
       "documented key, because that lib holds the default master's public keys only for a lone UFO - any other key would make a lone UFO and a designspace "
-      "listing only that UFO build different fonts. Container equivalence in general and formatting insensitivity are parser semantics and NOT decided.",
+      "listing only that UFO build different fonts; (L7) the Glyphs plist scalar accessors agree on accepting quoted and unquoted spellings of a scalar; (L8) the raw Glyphs text "
+      "is not rewritten by regular expressions before the tokenizer. L7 and L8 each report one genuine defect of the pinned tree, listed as KNOWN findings (reproduced; not small to repair). "
+      "Container equivalence in general and the rest of formatting insensitivity are parser semantics and NOT decided.",
       "Trusted: rustc MIR and the call graph (CHA for trait objects); dominators are computed by node removal over the reachable graph.",
       "DESIGN.md section 5.3 (Q1)")
 
